@@ -209,6 +209,10 @@ class NameMonitor:
         # A3: an adding call must not alter a name that was given
         if kind in ADD_OPS:
             self._count("A_add_calls")
+            if kind in ("append", "extend", "ins_before", "ins_after") and assigned:
+                conts = w.containers()
+                if conts and isinstance(conts[op[1] % len(conts)], ir.Function):
+                    self._count("A_assignments_through_function", len(assigned))
             for v in w.values:
                 b = pre["values"].get(id(v))
                 if b is not None and v.name != b:
@@ -257,5 +261,3 @@ class NameMonitor:
 def make_gen(rng, w, hostile):
     return GenA(rng, w, hostile, weights=WEIGHTS_A, avoid={"owned_node_outputs"})
 
-
-assert isinstance(ir.Graph, type)
